@@ -66,8 +66,12 @@ ENTRY_POINTS = (["sansio.get_host", "wsgi.get_host"]
                 + [f"sansio.Request.{p}" for p in ("host", "url", "host_url")])
 
 
+FORMS = {"list": list, "tuple": tuple, "set": set, "frozenset": frozenset,
+         "str": lambda l: (l[0] if l else "")}     # a bare string is accepted as a one-name list
+
+
 def host_call(api: str, host: str | None, lst: list[str], scheme: str = "http",
-              srv: str = "srv.example", srvport: str = "8080") -> dict:
+              srv: str = "srv.example", srvport: str = "8080", form: str = "list") -> dict:
     """Run one entry point on (host, trusted list) and return the trace line (without t/i).
     vkind tells the judge what a returned text is: the host, or a URL built from it."""
     from werkzeug.sansio import utils as su
@@ -76,16 +80,17 @@ def host_call(api: str, host: str | None, lst: list[str], scheme: str = "http",
     from werkzeug.datastructures import Headers
     from werkzeug.wrappers import Request
 
+    mk = lambda: FORMS[form](lst)     # the trusted-hosts configuration in the requested container form
     present = host is not None
     port = int(srvport) if srvport else None
     vkind = "host"
     if api == "host_is_trusted":
-        r = _result(lambda: su.host_is_trusted(host, list(lst)))
+        r = _result(lambda: su.host_is_trusted(host, mk()))
         srv_, srvport_ = "", ""  # no server fallback: an absent host is the empty host
     else:
         srv_, srvport_ = srv, srvport
         if api == "sansio.get_host":
-            r = _result(lambda: su.get_host(scheme, host, (srv, port), list(lst)))
+            r = _result(lambda: su.get_host(scheme, host, (srv, port), mk()))
         elif api.startswith("sansio.Request."):
             prop = api.rsplit(".", 1)[1]
             vkind = "host" if prop == "host" else "url"
@@ -93,7 +98,7 @@ def host_call(api: str, host: str | None, lst: list[str], scheme: str = "http",
             def f():
                 req = SansIORequest("GET", scheme, (srv, port), "/app", "/p", b"q=1",
                                     Headers([("Host", host)] if present else []), "10.0.0.9")
-                req.trusted_hosts = list(lst)
+                req.trusted_hosts = mk()
                 return getattr(req, prop)
             r = _result(f)
         else:
@@ -104,12 +109,12 @@ def host_call(api: str, host: str | None, lst: list[str], scheme: str = "http",
             if present:
                 environ["HTTP_HOST"] = host
             if api == "wsgi.get_host":
-                r = _result(lambda: wsgi.get_host(environ, list(lst)))
+                r = _result(lambda: wsgi.get_host(environ, mk()))
             elif api.startswith("wsgi.get_current_url:"):
                 ro, sq, ho = (c == "1" for c in api.split(":")[1])
                 vkind = "url"
                 r = _result(lambda: wsgi.get_current_url(environ, root_only=ro, strip_querystring=sq, host_only=ho,
-                                                         trusted_hosts=list(lst)))
+                                                         trusted_hosts=mk()))
             else:   # Request.<prop>[:inst|:cls]
                 name, _, mode = api.partition(":")
                 prop = name.split(".", 1)[1]
@@ -118,15 +123,15 @@ def host_call(api: str, host: str | None, lst: list[str], scheme: str = "http",
                 def f():
                     if mode == "cls":
                         class TrustedRequest(Request):
-                            trusted_hosts = list(lst)
+                            trusted_hosts = mk()
                         req = TrustedRequest(environ)
                     else:
                         req = Request(environ)
-                        req.trusted_hosts = list(lst)
+                        req.trusted_hosts = mk()
                     return getattr(req, prop)
                 r = _result(f)
     return {"op": "host", "api": api, "vkind": vkind, "host": cps(host or ""), "present": present, "srv": cps(srv_),
-            "srvport": cps(srvport_), "scheme": scheme, "list": [cps(e) for e in lst],
+            "srvport": cps(srvport_), "scheme": scheme, "form": form, "list": [cps(e) for e in lst],
             "tab": idna_tab([host or "", srv_, *lst]), "r": r}
 
 
@@ -136,6 +141,26 @@ EP_BAD = ["evil.example", "eviltrusted.example", "trusted.example.evil.com", "xs
           "a" * 64 + ".sub.example", "trusted.example@evil.example", "asub.example", ""]
 EP_EITHER = ["TRUSTED.example", "trusted.example."]
 STD_PORT = {"http": "80", "ws": "80", "https": "443", "wss": "443"}
+
+
+def boundary_list_cases(quick: bool) -> list:
+    """BOUNDARY VALUES of the trusted list through every entry point: configured but EMPTY in every container
+    form ([], (), set(), frozenset(), ''), one element in every form, lists holding only '' / '.' / a
+    dot-prefixed name.  (None = not configured is a different thing and no subject of the property.)"""
+    lists = [([], f) for f in ("list", "tuple", "set", "frozenset")] + [([""], "str")]
+    lists += [(["trusted.example"], f) for f in FORMS] + [([""], "list"), (["."], "list"), ([".example.com"], "tuple"),
+                                                          ([".example.com"], "str"), (["", "."], "set")]
+    hosts = ["trusted.example", "a.example.com", "example.com", "evil.example", "localhost", "[::1]", "a..b", "", "xexample.com"]
+    apis = ["host_is_trusted"] + ENTRY_POINTS
+    cases = []
+    for n, (lst, form) in enumerate(lists):
+        hs = [hosts[(n + k) % len(hosts)] for k in (0, 2, 5)] + ["trusted.example"] if quick else hosts
+        for j, h in enumerate(hs):
+            scheme = ("http", "https", "ws", "wss")[(n + j) % 4]
+            cases.append([h + ("" if j % 2 or not h else ":" + STD_PORT[scheme]), lst, apis, scheme, "srv.example", "8080", form])
+        for srv in (("trusted.example", "a.example.com") if quick else ("trusted.example", "a.example.com", "evil.example", "::1")):
+            cases.append([None, lst, ENTRY_POINTS, "http", srv, "80" if n % 2 else "8080", form])
+    return cases
 
 
 def entrypoint_cases(quick: bool) -> list:
@@ -164,8 +189,9 @@ def entrypoint_cases(quick: bool) -> list:
 
 def host_case(case) -> list[dict]:
     """case = [host | None, list, apis, scheme, srv, srvport] -> trace lines"""
-    host, lst, apis, scheme, srv, srvport = case
-    return [host_call(a, host, lst, scheme, srv, srvport) for a in apis]
+    host, lst, apis, scheme, srv, srvport = case[:6]
+    form = case[6] if len(case) > 6 else "list"
+    return [host_call(a, host, lst, scheme, srv, srvport, form) for a in apis]
 
 
 LABELS = ["localhost", "evillocalhost", "evil", "com", "example", "a", "b", "LOCALHOST", "Example", "bücher",
@@ -251,7 +277,8 @@ def codepoint_cases(rng, n_sample: int, dense_below: int = 0x250):
 
 
 # --------------------------------------------------------------------------- the debugger rig
-PIN = "123-456-789"
+PIN = "123-456-789"       # PIN A: what the process starts with
+PIN_B = "987-654-321"     # PIN B: set later through the public pin setter
 KNOWN_FRAME, CONSOLE_FRAME, UNKNOWN_FRAME = 4242, 0, 999
 
 CMDS = ("eval", "console", "pinauth", "printpin", "resource", "none")
@@ -352,7 +379,25 @@ class Rig:
         self.trusted = list(self.app.trusted_hosts)
 
     def cfg_line(self) -> dict:
-        return {"op": "dcfg", "evalex": self.evalex, "pin_on": self.pin_on, "trusted": [cps(x) for x in self.trusted]}
+        return {"op": "dcfg", "evalex": self.evalex, "pin_on": self.pin_on, "pin": "A", "trusted": [cps(x) for x in self.trusted]}
+
+    def configure(self, setd: dict) -> dict:
+        """Reconfigure the live application through its public attributes; setd may hold "pin" ("A" | "B" | None),
+        "evalex" (bool), "trusted" (list).  Returns the `set` trace line: the configuration now in force."""
+        if "pin" in setd:
+            if setd["pin"] is None:
+                self.app.pin = None
+                self.pin_on = False
+            else:
+                self.app.pin = PIN if setd["pin"] == "A" else PIN_B
+                self.pin_on, self.pin_cur = True, setd["pin"]
+        if "evalex" in setd:
+            self.app.evalex = self.evalex = bool(setd["evalex"])
+        if "trusted" in setd:
+            self.app.trusted_hosts = list(setd["trusted"])
+            self.trusted = list(setd["trusted"])
+        return {"op": "set", "evalex": self.evalex, "pin_on": self.pin_on, "pin": getattr(self, "pin_cur", "A"),
+                "trusted": [cps(x) for x in self.trusted], "what": sorted(setd)}
 
     def _cookie(self, kind: str, var: int) -> str | None:
         D = self.D
@@ -366,6 +411,8 @@ class Rig:
         if kind == "expired":
             ts = [now - D.PIN_TIME, now - D.PIN_TIME - 1, 0, -5][var % 4]
             return f"{self.cookie_name}={ts}|{good}"
+        if kind == "validB":
+            return f"{self.cookie_name}={[now, now - D.PIN_TIME + 1][var % 2]}|{D.hash_pin(PIN_B)}"
         if kind == "wronghash":
             h = ["0" * 12, good[:-1] + ("0" if good[-1] != "0" else "1"), D.hash_pin("000-000-000"), good + "0"][var % 4]
             return f"{self.cookie_name}={now}|{h}"
@@ -400,7 +447,8 @@ class Rig:
             else:
                 args.append(("cmd", cmd))
         if cmd not in ("console", "none") or var % 2:
-            args.append(("pin", PIN if q["pin"] == "right" else ["000-000-000", "", "123-456-788", PIN + "0"][var % 4]))
+            args.append(("pin", PIN if q["pin"] == "right" else PIN_B if q["pin"] == "B"
+                         else ["000-000-000", "", "123-456-788", PIN + "0"][var % 4]))
             if q["secret"] == "right":
                 args.append(("s", app.secret))
             elif q["secret"] == "wrong":
@@ -457,7 +505,7 @@ class Rig:
                 val = v[len(self.cookie_name) + 1:].split(";", 1)[0].strip('"')
                 if val:
                     cookie_set = True
-        pin_logged = any(PIN in [str(x) for x in entry] or any(PIN in str(x) for x in entry) for entry in self.logs[logs0:])
+        pin_logged = any(p in str(x) for p in (PIN, PIN_B) for entry in self.logs[logs0:] for x in entry)
         try:
             rtrust = bool(app.check_host_trust(environ))
         except Exception:
@@ -486,11 +534,86 @@ def run_script(script) -> list[dict]:
         lines = [rig.cfg_line()]
         for step in script["steps"]:
             q, host, var = step[0], step[1], step[2]
+            if "set" in q:          # a configuration step: assignment to public attributes of the live application
+                lines.append(rig.configure(q["set"]))
+                continue
             ln = rig.request(q, host, var)
             if len(step) > 3 and step[3] is not None:
                 ln["has_exp"], ln["exp"], ln["exp_cnt"] = True, step[3], step[4]
             lines.append(ln)
         return lines
+
+
+def _rq(cmd, cookie="absent", pin="wrong", frame="known", secret="right"):
+    return {"cmd": cmd, "secret": secret, "cookie": cookie, "frame": frame, "pin": pin}
+
+
+def config_history_scripts(rng, n_random: int) -> list[dict]:
+    """Configuration histories on a live DebuggedApplication (public attributes pin / evalex / trusted_hosts):
+    request / login under PIN A -> set B -> old cookie -> login B -> new cookie -> set A again ..., every
+    (from, to) pair of PIN settings x gated command x cookie, trusted-hosts and evalex switches, and seeded
+    random histories with configuration steps mixed in."""
+    T = TRUSTED_REP
+    scripts = []
+    S = lambda **kw: [{"set": kw}, None, 0]
+    story = [
+        [_rq("pinauth", pin="right"), T, 0], [_rq("eval", "valid"), T, 1], [_rq("eval", "valid", frame="console"), T, 2],
+        S(pin="B"),
+        [_rq("eval", "valid"), T, 3], [_rq("eval", "valid", frame="console"), T, 4], [_rq("pinauth", "valid"), T, 5],
+        [_rq("pinauth", pin="right"), T, 6], [_rq("eval", "absent"), T, 7],
+        [_rq("pinauth", pin="B"), T, 8], [_rq("eval", "validB"), T, 9], [_rq("eval", "validB", frame="console"), T, 10],
+        [_rq("pinauth", "validB"), T, 11],
+        S(pin="A"),
+        [_rq("eval", "validB"), T, 12], [_rq("pinauth", "validB"), T, 13], [_rq("eval", "valid"), T, 14],
+        S(pin=None),
+        [_rq("eval", "absent"), T, 15], [_rq("eval", "wronghash"), UNTRUSTED_REP, 16], [_rq("console", secret="absent"), T, 17],
+        S(pin="B"),
+        [_rq("eval", "absent"), T, 18], [_rq("eval", "valid"), T, 19], [_rq("eval", "validB"), T, 20],
+        S(trusted=["example.com"]),
+        [_rq("eval", "validB"), T, 21], [_rq("eval", "validB"), "example.com", 22], [_rq("console", secret="absent"), T, 23],
+        [_rq("console", secret="absent"), "example.com", 24], [_rq("pinauth", pin="B"), T, 25],
+        [_rq("pinauth", pin="B"), "example.com:8080", 26], [_rq("printpin"), T, 27], [_rq("printpin"), "sub.example.com", 28],
+        S(trusted=[]),
+        [_rq("eval", "validB"), T, 29], [_rq("eval", "validB"), "example.com", 30], [_rq("console", secret="absent"), "127.0.0.1", 31],
+        S(trusted=[".localhost", "127.0.0.1"]),
+        [_rq("eval", "validB"), T, 32],
+        S(evalex=False),
+        [_rq("eval", "validB"), T, 33], [_rq("console", secret="absent"), T, 34],
+        S(evalex=True),
+        [_rq("eval", "validB"), T, 35], [_rq("eval", "valid"), T, 36],
+    ]
+    for evalex, pin_on in ((True, True), (True, False)):
+        scripts.append({"evalex": evalex, "pin_on": pin_on, "steps": story, "src": "config"})
+    # every (from, to) pair of PIN settings x gated command x cookie kind (x the matching / the other PIN entered)
+    reqs = [_rq(c, ck, pin, fr) for c, fr in (("eval", "known"), ("eval", "console"), ("pinauth", "unknown"))
+            for ck in ("valid", "validB", "expired", "wronghash", "absent") for pin in ("right", "B", "wrong")
+            if c == "pinauth" or pin == "wrong"]
+    reqs += [_rq("console", secret="absent"), _rq("printpin")]
+    for frm in ("A", "B", None):
+        for to in ("A", "B", None):
+            if frm == to:
+                continue
+            steps = [S(pin=frm)] + [[r, T, i] for i, r in enumerate(reqs[::3])] + [S(pin=to)] + [[r, T, i] for i, r in enumerate(reqs)]
+            scripts.append({"evalex": True, "pin_on": True, "steps": steps, "src": "config"})
+    cookies = list(COOKIES) + ["validB", "validB"]
+    pins = list(PINS) + ["B"]
+    lists = [[".localhost", "127.0.0.1"], ["example.com"], [], ["localhost"], [".example.com", "127.0.0.1"]]
+    for _ in range(n_random):
+        steps = []
+        for _ in range(rng.randint(15, 45)):
+            x = rng.random()
+            if x < 0.10:
+                steps.append(S(pin=rng.choice(["A", "B", "B", None])))
+            elif x < 0.14:
+                steps.append(S(trusted=rng.choice(lists)))
+            elif x < 0.17:
+                steps.append(S(evalex=rng.random() < 0.7))
+            else:
+                cmd = rng.choice(["eval", "eval", "eval", "pinauth", "pinauth", "console", "printpin"])
+                r = _rq(cmd, rng.choice(cookies), rng.choice(pins), rng.choice(FRAMES), "right" if rng.random() < 0.85 else rng.choice(SECRETS))
+                steps.append([r, rng.choice([T, T, T, "example.com", "sub.localhost", "evil.com", "127.0.0.1", None]), rng.randrange(60)])
+        scripts.append({"evalex": True, "pin_on": rng.random() < 0.8, "steps": steps, "src": "config"})
+    return scripts
 
 
 def prefix_to(cnt: int) -> list:
